@@ -91,7 +91,17 @@ def main():
             res['arr'][key] = enc(a)
 
     def make_kvs(spec):
-        return tuple(bspline.make_knots(int(p), 0.0, 1.0, int(n), mult=int(m)) for (p, n, m) in spec)
+        out = []
+        for sp in spec:
+            if isinstance(sp[1], list):     # [p, explicit knot list]
+                out.append(bspline.KnotVector(np.array(sp[1], dtype=np.float64), int(sp[0])))
+            else:
+                p, n, m = sp
+                out.append(bspline.make_knots(int(p), 0.0, 1.0, int(n), mult=int(m)))
+        return tuple(out)
+
+    def all_pairs(M, N):
+        return np.column_stack((np.repeat(np.arange(M, dtype=np.int64), N), np.tile(np.arange(N, dtype=np.int64), M)))
 
     def make_geo(name, dim):
         if name == 'unit':
@@ -145,7 +155,8 @@ def main():
             P = S.nonzero()
             P = (np.asarray(P[0]).astype(np.int64), np.asarray(P[1]).astype(np.int64))
             res['info'].update({'vec': vec, 'shape': [int(x) for x in S.shape], 'bs': [[int(a), int(b)] for a, b in S.bs],
-                                'nqp': int(max(kv.p for kv in kvs) + 1), 'p': [int(kv.p) for kv in kvs]})
+                                'nqp': int(max(kv.p for kv in kvs) + 1), 'p': [int(kv.p) for kv in kvs],
+                                'ndofs': [int(kv.numdofs) for kv in kvs]})
             if full and case['form'] == 'custom' and case.get('want_source'):
                 # the text the code generator emits for this form (what compile_vform compiles)
                 try:
@@ -165,6 +176,12 @@ def main():
             if vec:
                 nc = tuple(int(x) for x in asm.num_components())
                 res['info']['numcomp'] = list(nc)
+                try:
+                    # every block of the M x N block matrix, independent of any sparsity structure
+                    out_arr(res, 'blocks_dense', asm.multi_blocks(all_pairs(int(S.shape[0]), int(S.shape[1]))))
+                    res['status']['blocks_dense'] = 'Ok'
+                except Exception as e:   # noqa
+                    res['status']['blocks_dense'] = errclass(e) + ': ' + str(e)[:200]
                 try:
                     B = asm.multi_blocks(IJ)
                     res['info']['blocks_shape'] = list(B.shape)
@@ -199,6 +216,12 @@ def main():
                     except Exception as e:   # noqa
                         res['status'][key] = errclass(e) + ': ' + str(e)[:200]
             else:
+                try:
+                    # every entry of the M x N matrix, independent of any sparsity structure
+                    out_arr(res, 'entries_dense', asm.multi_entries(all_pairs(int(S.shape[0]), int(S.shape[1]))))
+                    res['status']['entries_dense'] = 'Ok'
+                except Exception as e:   # noqa
+                    res['status']['entries_dense'] = errclass(e) + ': ' + str(e)[:200]
                 E = asm.multi_entries(IJ)
                 out_arr(res, 'entries_full', E)
                 out_arr(res, 'entries_full_again', asm.multi_entries(IJ))
